@@ -181,6 +181,11 @@ def _digits(tape, maxw, label):
     """non-negative integer text without sign; width 1..maxw; very unequal widths are common"""
     w = tape.weighted([(4, 1), (3, 2), (2, 3), (2, 5), (1, 9), (1, maxw)], label + ".w")
     w = min(w, maxw)
+    shape = tape.weighted([(8, "random"), (1, "nines"), (1, "power")], label + ".shape")
+    if shape == "nines":
+        return "9" * w
+    if shape == "power":
+        return "1" + "0" * (w - 1)
     first = "123456789"[tape.draw(9, label + ".d0")] if w > 1 else "0123456789"[tape.draw(10, label + ".d0")]
     rest = "".join("0123456789"[tape.draw(10, label + ".d")] for _ in range(w - 1))
     return first + rest
